@@ -46,11 +46,12 @@ const (
 	DHugeGarbage   // one 'V' value replaced by > 64 KiB of junk (wrong cookie)
 	DZeroSchema    // 'S' = zero bytes (as many as before, or Arg%9 of them)
 	DOrphanBitmap  // an extra 'V' entry under a key no schema value has: garbage (Arg even) or a valid bitmap (Arg odd)
+	DEmptyBucket   // the data bucket exists but holds nothing at all (schema, counter and every bitmap removed)
 	nDamage
 )
 
 var damageName = []string{"none", "missing-path", "zero-bytes", "empty-db", "other-bucket", "del-bucket", "del-schema", "empty-schema",
-	"trunc-schema", "flip-schema", "garbage-schema", "del-counter", "short-counter", "long-counter", "garbage-bitmap", "empty-bitmap", "trunc-bitmap", "huge-garbage-bitmap", "zero-schema", "orphan-bitmap"}
+	"trunc-schema", "flip-schema", "garbage-schema", "del-counter", "short-counter", "long-counter", "garbage-bitmap", "empty-bitmap", "trunc-bitmap", "huge-garbage-bitmap", "zero-schema", "orphan-bitmap", "empty-bucket"}
 
 type Damage struct {
 	Kind int
@@ -144,6 +145,18 @@ func apply(dir string, rows []model.Row, c *Case) (path string, ex expect, err e
 				return b.Put([]byte("S"), s)
 			case DGarbageSchema:
 				return b.Put([]byte("S"), bytes.Repeat([]byte{0xff, 0x00, 0x7f, byte(dm.Arg)}, 5))
+			case DEmptyBucket:
+				var keys [][]byte
+				cur := b.Cursor()
+				for k, _ := cur.First(); k != nil; k, _ = cur.Next() {
+					keys = append(keys, append([]byte(nil), k...))
+				}
+				for _, k := range keys {
+					if err := b.Delete(k); err != nil {
+						return err
+					}
+				}
+				return nil
 			case DOrphanBitmap:
 				key := []byte{'V', 0xfe, 0xed, byte(dm.Arg), byte(dm.Arg >> 8), 0x5a, 0xa5, 0x01, 0x02}
 				if dm.Arg%4 >= 2 {
